@@ -352,7 +352,39 @@ pub(crate) fn mutate_response(rng: &mut Rng, base: &Resp, chain: &SynChain, fork
         }
         _ => { r.proof.push(packed::HeaderDigest::default()); "append-proof-item" }
     };
+    // a careful forger re-proves the tampered header set: the MMR proof then verifies for exactly the returned (genuine)
+    // headers, and only the structural checks (matching, continuity, counts) can tell the answer from an honest one
+    let what = match what {
+        "drop-header" | "drop-first-header" | "prepend-header" | "swap-headers" if rng.chance(2, 3) => {
+            let last_n: u64 = r.last.header().raw().number().unpack();
+            let numbers: Vec<u64> = r.headers.iter().map(|h| h.header().raw().number().unpack()).collect();
+            let genuine = numbers.iter().zip(r.headers.iter()).all(|(n, h)| *n < last_n && chain.headers[*n as usize].hash() == h.header().calc_header_hash());
+            if genuine && numbers.windows(2).all(|w| w[0] < w[1]) && chain.has_root(last_n) {
+                r.proof = chain.proof(last_n, &numbers).into_iter().collect();
+                match what { "drop-header" => "drop-header-reproved", "drop-first-header" => "drop-first-header-reproved", "prepend-header" => "prepend-header-reproved", _ => what }
+            } else { what }
+        }
+        w => w,
+    };
     (r, what)
+}
+
+/// a subset of the honest answer's (genuine) headers with an MMR proof rebuilt for exactly that subset
+fn mutate_reproved(rng: &mut Rng, base: &Resp, chain: &SynChain) -> Option<(Resp, &'static str)> {
+    let last_n: u64 = base.last.header().raw().number().unpack();
+    if !chain.has_root(last_n) || base.headers.len() < 2 { return None; }
+    let mut r = Resp { last: base.last.clone(), headers: base.headers.clone(), proof: base.proof.clone() };
+    let nh = r.headers.len();
+    let what = match rng.below(5) {
+        0 => { r.headers.remove(nh - 1); "drop-last-header-reproved" }
+        1 => { let k = rng.below(nh as u64) as usize; r.headers.remove(k); "drop-header-reproved" }
+        2 => { let k = nh - 1 - rng.below((nh as u64).min(4)) as usize; r.headers.remove(k); "drop-tail-header-reproved" }
+        3 if nh > 2 => { let k = rng.below(nh as u64 - 1) as usize; r.headers.remove(k); r.headers.remove(k); "drop-two-headers-reproved" }
+        _ => { let keep = rng.range(1, nh as u64 - 1) as usize; r.headers.truncate(keep); "truncate-headers-reproved" }
+    };
+    let numbers: Vec<u64> = r.headers.iter().map(|h| h.header().raw().number().unpack()).collect();
+    r.proof = chain.proof(last_n, &numbers).into_iter().collect();
+    Some((r, what))
 }
 
 fn state_fingerprint(c: &Client, peer: PeerIndex) -> String {
@@ -401,8 +433,17 @@ pub(crate) fn handler_case(out: &mut Out, id: &str, tags: &[&str], c: &mut Clien
         Val::l(vec![Val::n(code), obs_prove(&after), rq, sent, obs_store(c)])
     };
     let changed = before_trusted != after_trusted;
+    // the remembered headers of an accepted proof form one chain ending at the proven header's parent
+    let discontinuous = after.as_ref().and_then(|s| s.get_prove_state()).map(|ps| {
+        let hs = ps.get_last_headers();
+        hs.windows(2).any(|w| w[1].parent_hash() != w[0].hash() || w[1].number() != w[0].number() + 1)
+            || hs.last().map(|h| ps.get_last_header().header().parent_hash() != h.hash()).unwrap_or(false)
+            || ps.get_reorg_last_headers().windows(2).any(|w| w[1].parent_hash() != w[0].hash())
+    }).unwrap_or(false);
     let oracle = if o.panicked {
         Err("[C10-handler-panic] SendLastStateProof handler panicked".to_string())
+    } else if changed && discontinuous {
+        Err("[C01-accepted-discontinuous] the accepted proof leaves remembered headers that do not form one chain up to the proven header".to_string())
     } else if o.ban.is_some() && before_fp != state_fingerprint(c, peer) {
         Err("[C01-reject-changed-state] the response was rejected (peer banned) but state changed".to_string())
     } else if changed && !honest && !identical_to_honest {
@@ -462,7 +503,7 @@ fn part_b(rng: &mut Rng, n: u64, out: &mut Out) {
             if m == 0 {
                 handler_case(out, &format!("handler-{}-honest", i), &["handler", "honest", shape], &mut c, peer, &base, true, true, tau, &descr_base);
             } else {
-                let (r, what) = mutate_response(rng, &base, &chain, &fork);
+                let (r, what) = match if m == 3 { mutate_reproved(rng, &base, &chain) } else { None } { Some(x) => x, None => mutate_response(rng, &base, &chain, &fork) };
                 // identical up to fields nothing authenticates: the parent chain root of a header that, before
                 // MMR activation, does not commit to one (the stored headers are the same either way)
                 let same = r.message().as_slice() == base.message().as_slice() || {
@@ -478,7 +519,9 @@ fn part_b(rng: &mut Rng, n: u64, out: &mut Out) {
                         && r.proof.len() == base.proof.len()
                         && r.proof.iter().zip(base.proof.iter()).all(|(a, b)| a.as_slice() == b.as_slice())
                 };
-                handler_case(out, &format!("handler-{}-m{}", i, m), &["handler", "mutated", what, shape], &mut c, peer, &r, false, same, tau,
+                handler_case(out, &format!("handler-{}-m{}", i, m), &["handler", "mutated", what, shape], &mut c, peer, &r, false,
+                    // a re-proved subset of genuine headers that passes every check IS a verified proof: only the correspondence judges it
+                    same || what.ends_with("-reproved"), tau,
                     &format!("{}; mutation: {}", descr_base, what));
             }
         }
